@@ -19,6 +19,7 @@ RULE = (
 ASSUMPTIONS = [
     "TypeError / refusal exceptions are told apart from internal errors by the innermost frame "
     "being an explicit `raise` statement inside ptera (assert statements never count)",
+    "pumped strings (a unit of 1-3 characters repeated 31 / 64 times between 7 prefixes and 4 suffixes) are run one by one under a 15 s alarm, re-run under 90 s before non-termination is reported",
     "termination: a 60 s alarm re-armed every 200 strings; when it fires the current string is re-run alone under a 300 s alarm before non-termination is reported",
 ]
 BOUNDS = {
@@ -101,7 +102,26 @@ def units(tier):
     for i in range(len(valid_selectors(tier))):
         out.append(("edits", i, b["edit_distance"]))
     out.append(("inject",))
+    for i in range(len(PUMP_PREFIXES)):
+        out.append(("pump", i))
     return out
+
+
+# "pumped" strings: one short unit repeated many times between a prefix and a suffix - the inputs on which
+# a tokenizer pattern or a recursive descent that is fine on short strings stops terminating in practice
+PUMP_PREFIXES = ["", "'", "f > x = '", "f > x = ", "f(", "f > ", "f(x ~ g('"]
+PUMP_UNITS = ["a", "0", " ", "'", "\\", ".", "(", ")", "[", "]", ">", "!", "$", "#", "*", ":", "=", "~", ",", "-", "@", "/",
+              "ab ", "a.", "a'", "\\'", "( ", "a,", "'a", "a\\", "a b", "1.", "()", "a(", "a)"]
+PUMP_SUFFIXES = ["", "'", ")", " > y"]
+PUMP_COUNTS = (31, 64)
+
+
+def pump_texts(i):
+    pre = PUMP_PREFIXES[i]
+    for u in PUMP_UNITS:
+        for k in PUMP_COUNTS:
+            for suf in PUMP_SUFFIXES:
+                yield pre + u * k + suf
 
 
 _VALID_CACHE = {}
@@ -314,6 +334,32 @@ def work(unit, tier):
             finally:
                 signal.alarm(0)
 
+    if kind == "pump":
+        # every pumped string alone under a 15 s alarm (they take microseconds); a suspect is re-run under
+        # a 90 s alarm, and the first confirmed hang ends the unit (every further one would cost as much)
+        for t in pump_texts(unit[1]):
+            current[0] = t
+            for limit in (15, 90):
+                signal.alarm(limit)
+                try:
+                    seen.discard(t)
+                    check_text(t, env, part, seen, deep=False)
+                    signal.alarm(0)
+                    if limit == 90:
+                        part["counters"]["watchdog-false-alarms"] += 1
+                    break
+                except _Timeout:
+                    signal.alarm(0)
+                    if limit == 90:
+                        part["violations"].append(
+                            violation(PROP, "non-termination", {"text": t, "stage": "parse"},
+                                      f"no result within 90 s for a string of {len(t)} characters ({t[:24]!r}...)", tags=["symptom:non-termination"]))
+                finally:
+                    signal.alarm(0)
+            if any(v["kind"] == "non-termination" for v in part["violations"]):
+                break
+        attribute_known(part)
+        return part
     if kind == "strings":
         _, alpha, prefix, n = unit
         alphabet = S.FULL if alpha == "FULL" else S.CORE
@@ -399,7 +445,14 @@ def replay(case):
     elif "inject" in case:
         must_refuse(case["text"], make_env, part, case["inject"], case.get("overridable", False))
     else:
-        check_text(case["text"], env, part, set())
+        signal.signal(signal.SIGALRM, _alarm)
+        signal.alarm(120)
+        try:
+            check_text(case["text"], env, part, set())
+        except _Timeout:
+            return True, "no result within 120 s"
+        finally:
+            signal.alarm(0)
     if part["violations"]:
         return True, part["violations"][0]["detail"]
     return False, "no violation"
